@@ -403,6 +403,14 @@ def main(pid, run):
     a = ap.parse_args(sys.argv[2:])
     seed = int(os.environ.get("VERIF_SEED", "0"))
     try:
+        # the harness asks the quadratures for tolerances near machine precision on purpose;
+        # scipy's "requested tolerance cannot be achieved" notes would only clutter the output
+        import warnings
+        from scipy.integrate import IntegrationWarning
+        warnings.filterwarnings("ignore", category=IntegrationWarning)
+    except Exception:                                       # noqa: BLE001
+        pass
+    try:
         rc = run(a.tier, seed, a.replay)
     except Infra as e:
         log("INFRASTRUCTURE: %s" % e)
